@@ -247,3 +247,22 @@ CASES += [
         emit(("ifx", call("t", I(16), ("bool", False)), call("t", I(17), I(1)), call("t", I(18), I(2)))),
         emit(("bin", "<", call("t", I(19), I(1)), ("bin", "//", call("t", I(20), I(7)), call("t", I(21), I(0)))))]),
 ]
+
+
+# range(): length, elements and membership on a grid of bounds and steps (steps that divide the distance
+# exactly, that do not, that exceed it; both directions; empty ranges) - the arithmetic of range_type.rs
+def _range_grid():
+    out = []
+    for s in (1, 2, 3, 5, -1, -2, -3, -5):
+        stmts = []
+        for a in (-3, 0, 2):
+            for b in (-4, 0, 1, 4, 6, 8):
+                r = call("range", I(a), I(b), I(s))
+                # (range == range is left out: the reference semantics compares ranges structurally - a limitation of the
+                #  model, not of the code; equals_range is covered by the theorem C01_source_range_equals instead)
+                stmts.append(emit(("tuple", [call("len", r), call("list", r), ("bin", "in", I(a + s), r), ("bin", "in", I(b), r)])))
+        out.append(("range-grid-step%d" % s, stmts))
+    return out
+
+
+CASES += _range_grid()
